@@ -83,12 +83,21 @@ def _passthrough_hook(origin, target, params, state):
 PADS = ["{}", "{} ", " {}", " {} ", "\t{}", "{}\n"]
 
 
-def run_entry(style, eol, entry, text, prev_style=None, hook=False, pad=0, other=None):
+def run_entry(style, eol, entry, text, prev_style=None, hook=False, pad=0, other=None,
+              rejected_restyle=False):
     import gscrib
     cfg_eol, _ = eol_of(eol)
     # the style may be configured with surrounding blanks (the library strips them)
     style_cfg = PADS[pad % len(PADS)].format(style)
     g = gscrib.GCodeBuilder(comment_symbols=prev_style or style_cfg, line_endings=cfg_eol)
+    if rejected_restyle:
+        # a style change that is refused (blank symbols) must leave the
+        # configured style - the sanitising of its closing symbol included - alone
+        for bad in ("  ", ""):
+            try:
+                g.format.set_comment_symbols(bad)
+            except ValueError:
+                pass
     if other is not None:
         # ANOTHER builder (other comment style) is created and used after this
         # one: nothing of its configuration may reach this builder's formatter
@@ -141,13 +150,13 @@ def check(case):
         prev = None
     try:
         base = run_entry(style, eol, entry, "x", prev, bool(case.get("hook")), case.get("pad", 0),
-                         case.get("other"))
+                         case.get("other"), bool(case.get("rejected_restyle")))
     except Exception as e:
         raise Violation(f"style {style!r}: {entry} with an innocuous comment "
                         f"raised {type(e).__name__}: {e}")
     try:
         out = run_entry(style, eol, entry, text, prev, bool(case.get("hook")), case.get("pad", 0),
-                        case.get("other"))
+                        case.get("other"), bool(case.get("rejected_restyle")))
     except ValueError:
         return "rejected"
     except Exception as e:
@@ -182,6 +191,8 @@ def classes_of(case):
         cl.append("style_configured_with_blanks")
     if case.get("other"):
         cl.append("another_builder_created_meanwhile")
+    if case.get("rejected_restyle"):
+        cl.append("refused_style_change_before")
     if max(t.count("\n") + t.count("\r"), t.count(close) if close else 0) >= 9:
         cl.append("nine_or_more_breaks_or_closers")
     if case.get("prev_style") and case["prev_style"] != case["style"]:
@@ -232,7 +243,8 @@ def strategy():
         "prev_style": st.one_of(st.none(), st.none(), st.sampled_from(STYLES)),
         "hook": st.sampled_from([False, False, True]),
         "pad": st.sampled_from([0, 0, 0, 1, 2, 3, 4, 5]),
-        "other": st.sampled_from([None, None, ";", "(", "/*", "["])}))
+        "other": st.sampled_from([None, None, ";", "(", "/*", "["]),
+        "rejected_restyle": st.sampled_from([False, False, True])}))
 
 
 def run_shard(ctx):
